@@ -82,6 +82,7 @@ func Main() {
 	max := flag.Int("max", 200000, "execution cap per case and scenario")
 	thorough := flag.Bool("thorough", false, "thorough tier (all fault subsets)")
 	only := flag.String("only", "", "run only this package id")
+	traces := flag.String("traces", "", "comma separated package ids: enumerate all (projection, outcome) pairs without pruning instead of exploring")
 	out := flag.String("out", "", "output file (JSON lines)")
 	flag.Parse()
 
@@ -109,6 +110,26 @@ func Main() {
 	enc := json.NewEncoder(w)
 	cases := rt.Cases
 	sort.Slice(cases, func(i, j int) bool { return cases[i].Pkg < cases[j].Pkg })
+	if *traces != "" {
+		want := map[string]bool{}
+		for _, p := range strings.Split(*traces, ",") {
+			want[p] = true
+		}
+		n := 0
+		for _, c := range cases {
+			if !want[c.Pkg] || infos[c.Pkg] == nil || c.Unsupported != "" {
+				continue
+			}
+			n++
+			if (n-1)%*shards != *shard {
+				continue
+			}
+			for _, sc := range Scenarios(infos[c.Pkg], strings.Split(*fams, ","), *thorough) {
+				_ = enc.Encode(CollectTraces(c, infos[c.Pkg], sc, *max))
+			}
+		}
+		return
+	}
 	for i, c := range cases {
 		if *only != "" && c.Pkg != *only {
 			continue
